@@ -7,6 +7,7 @@ func init() {
 		func(r *Report) {
 			ruleOwnerFields(r)
 			ruleOwnerOverwrite(r)
+			ruleReplayClosesPerFile(r)
 			ruleOwnerLocals(r, []string{"simpledb", "sstables", "wal", "memstore", "recordio", "recordio/proto"})
 			ruleEvict(r)
 			ruleJoin(r)
